@@ -293,7 +293,13 @@ def make_misc(nmax, pmax):
                            (gen.generate_changing_data, dict(n=4, changepoints=[1, 2], variances=[1.0, 2.0])),
                            (gen.generate_anomalous_data, dict(n=4, anomalies=[(1, 2)], means=[0.0, 1.0])),
                            (gen.generate_anomalous_data, dict(n=4, anomalies=[(0, 1), (2, 3)], variances=[1.0, 2.0, 3.0])),
-                           (gen.generate_anomalous_data, dict(n=4, anomalies=[(1, 2, 3)]))):
+                           (gen.generate_anomalous_data, dict(n=4, anomalies=[(1, 2, 3)])),
+                           # counts that are wrong but *divide* the number of segments / anomalies (seed C18-f)
+                           (gen.generate_changing_data, dict(n=8, changepoints=[2, 4, 6], means=[0.0, 1.0])),
+                           (gen.generate_changing_data, dict(n=8, changepoints=[1, 2, 3, 4, 5], variances=[1.0, 2.0, 3.0])),
+                           (gen.generate_changing_data, dict(n=8, changepoints=[2, 4, 6], means=[0.0, 1.0], variances=[1.0, 2.0])),
+                           (gen.generate_anomalous_data, dict(n=9, anomalies=[(0, 1), (2, 3), (4, 5), (6, 7)], means=[0.0, 1.0])),
+                           (gen.generate_anomalous_data, dict(n=9, anomalies=[(0, 1), (2, 3), (4, 5), (6, 7)], variances=[1.0, 2.0]))):
                 try:
                     fn(**kw, random_state=1)
                     ok = False
@@ -451,6 +457,18 @@ def replay(cx):
                         bad.append(f"generate_alternating_data({nseg}, {L}, p={p}, affected_proportion={prop}) differs from the definition")
                 except Exception as ex:
                     bad.append(f"generate_alternating_data({nseg}, {L}, p={p}) raised {type(ex).__name__}: {ex}")
+            elif part == "counts":
+                import ast
+                kw = ast.literal_eval(info["kwargs"])
+                fn = getattr(g, info["call"])
+                try:
+                    fn(**kw, random_state=1)
+                    bad.append(f"{info['call']}(**{kw}) has an inconsistent number of means / variances but returned data instead of raising ValueError")
+                except ValueError:
+                    pass
+                except Exception as ex:
+                    bad.append(f"{info['call']}(**{kw}) raised {type(ex).__name__} instead of ValueError: {ex}"[:300])
+                key = f"misc|counts|{info['call']}"
             elif part == "seed_percol":
                 key = f"misc|seed_percol|{ob}"
                 for name, got_, want_ in real_rng_cases(g, info.get("seed", 0)):
